@@ -163,11 +163,14 @@ def run_real(scripts: List[List[str]], timeout: float = 3000) -> List[Tuple[List
     return pair.run(_run_real_scripts(scripts), timeout=timeout)
 
 
-def make_scripts(rng: Any, nbase: int, kinds_per_point: int, nscen: int = 0) -> List[Tuple[List[str], str]]:
+def make_scripts(rng: Any, nbase: int, kinds_per_point: int, nscen: int = 0, nflow: int = 0) \
+        -> List[Tuple[List[str], str]]:
     """Base scripts plus, for every packet boundary of each, cut variants.  The first `nscen` bases are the
-    start-up scenarios (the peer's CLOSE arrives while the channel is still in its start-up phase)."""
+    start-up scenarios (the peer's CLOSE arrives while the channel is still in its start-up phase), the next
+    `nflow` the flow-control scenarios (mutual close on full windows, a writer in drain() when the peer closes)."""
     out: List[Tuple[List[str], str]] = []
     bases = [(b, 'startup-' + name) for name, b in G.startup_scenarios(rng, nscen)]
+    bases += [(b, 'flow-' + name) for name, b in G.flow_scenarios(rng, nflow)]
     bases += [(G.gen_base(rng), 'base') for _ in range(nbase)]
     for base, tag in bases:
         out.append((base + G.epilogue(), tag))
@@ -225,6 +228,8 @@ def check_show(show: str, final: bool) -> List[Tuple[str, str]]:
                 bad.append(('create_session-pending-after-close', f'{k}={v}'))
             if final and 'wc' in sub and not sub['wc'].endswith('/0'):
                 bad.append(('chan-wait_closed-pending-after-close', f'{k}={v}'))
+            if final and 'dr' in sub and not sub['dr'].endswith('/0'):
+                bad.append(('drain-pending-after-close', f'{k}={v}'))
         elif k[0] == 'g' and k[1:].isdigit():
             if final and v == 'pending':
                 bad.append(('global-request-pending-after-close', f'{k}={v}'))
@@ -438,7 +443,7 @@ def correspondence(ctx: Ctx) -> CorrResult:
 
     # (1) life-cycle scripts with a cut at every packet boundary -------------------------------------------
     items = make_scripts(rng, ctx.n(26, 320), 1 if ctx.tier == 'quick' and not ctx.escalated else 2,
-                         ctx.n(8, 60))
+                         ctx.n(8, 60), ctx.n(8, 64))
     scripts = [s for s, _k in items]
     real = run_real(scripts)
     flat = [l for s in scripts for l in s]
@@ -691,7 +696,7 @@ def oracle(ctx: Ctx) -> OracleResult:
         if isinstance(s, dict) and s.get('kind') == 'script':
             items.append((s['script'], 'suspect'))
     items += make_scripts(rng, ctx.n(14, 110 if ctx.tier == 'quick' else 260), 1 if not ctx.escalated else 2,
-                          ctx.n(10, 40 if ctx.tier == 'quick' else 120))
+                          ctx.n(10, 40 if ctx.tier == 'quick' else 120), ctx.n(8, 32 if ctx.tier == 'quick' else 96))
     real = run_real([s for s, _k in items])
     seen_sigs: Dict[str, int] = collections.Counter()
     for (sc, kind), (out, info) in zip(items, real):
